@@ -6,7 +6,9 @@
 #   binding: harness/c16_hfsm/driver.cpp builds real StateMachine objects from a program and records per call the
 #            observed callbacks, return value and reported state; Trace_Hfsm.tla recomputes every call with the same
 #            operators and demands equality.  Programs/call sequences: TLC enumeration (exhaustive, small), TLC
-#            simulation (long), seeded random generator (3-4 nesting levels, up to ~10 states per program).
+#            simulation (long), seeded random generator (3-4 nesting levels, up to ~10 states per program).  Every program is
+#            built by replaying a random legal ORDER of definition calls; re-entrant attempts also go from nested machines to
+#            their ancestors while those are still inside run() (activation of the nested machine).
 import concurrent.futures as cf
 import json
 import os
@@ -396,8 +398,11 @@ def binding(ctx, exe):
         ctx.sample({"kind": "recorded trace of a random program (first lines)", "events": first})
         coverage_guard(ctx, [tr, ctx.tmp("gen_reent.ndjson")])
     ctx.assumptions = [
-        "calls are made on the root machine from outside, and from inside a callback only on the callback's own machine "
-        "(DESIGN section 5, decision 13: cross-machine re-entrancy is not generated)",
+        "calls are made on the root machine from outside; from inside a callback on the callback's own machine, and on an "
+        "ancestor only while that ancestor is inside its own run() activating the nested machine (calls on a parent that merely "
+        "delegates an event - DESIGN section 5, decision 13 - are not generated)",
+        "the machines are built by a seeded random legal order of the definition calls (p.defs); illegal orders (route to a "
+        "missing non-terminal target, attachments to a missing state) are not generated",
         "programs are well formed: route/handler targets exist, one nested machine per state, a machine is nested at most once, "
         "terminal states have no routes/handlers, events passed to run() are >= 1",
         "scripted guards/handlers are deterministic functions of their invocation count (cyclic scripts)"]
